@@ -97,7 +97,7 @@ func GenHistory(r *lib.Rng, e *Env, name string, t0 int64, w Weights, steps int,
 	var stepReqs []Req
 	t := t0
 	total := w.Session + w.Deny + w.Allow + w.ListDeny + w.ListAllow + w.Status + w.Clock + w.Repeat
-	for len(meta.Steps) < steps {
+	for len(hb.meta.Steps) < steps {
 		x := r.Intn(total)
 		var q *Req
 		switch {
